@@ -468,6 +468,9 @@ func genKey(r *vh.RNG, leadingZeros int) *btcec.PrivateKey {
 }
 
 func genPass(r *vh.RNG, i int) string {
+	if i%7 == 5 {
+		return edgePass[(i/7)%len(edgePass)]
+	}
 	switch i % 5 {
 	case 0:
 		return ""
@@ -548,7 +551,7 @@ func (h *harness) check(class string, spec fileSpec, js []byte, pass string, tam
 	}
 	if pass != spec.pass {
 		if d.ok || g.ok {
-			if tamper == "" && len(spec.pass) < 64 && len(pass) <= 64 && strings.TrimRight(pass, "\x00") == spec.pass {
+			if tamper == "" && kdfEquivalent(pass, spec.pass) {
 				c.Violate("passphrase-trailing-nul-equivalent", "unlocking succeeds with the passphrase followed by NUL bytes: HMAC zero-pads keys shorter than its block, so PBKDF2 and scrypt derive the same key for p and p||0x00 (the KDF does not separate these passphrases)", rp)
 			} else {
 				c.Violate("wrong-passphrase-accepted/"+strconv.Quote(pass)+"/"+string(js), "unlocking succeeded with a different passphrase", rp)
@@ -1067,6 +1070,17 @@ type hresult struct {
 
 func hx(p string) string { return "0x" + hex.EncodeToString([]byte(p)) }
 
+// kdfEquivalent: the KDFs see the passphrase as an HMAC key; keys of at most 64 bytes are zero-padded,
+// so two such passphrases that differ only in trailing NUL bytes derive the same key (known finding)
+func kdfEquivalent(p, q string) bool {
+	if p == q {
+		return true
+	}
+	return len(p) <= 64 && len(q) <= 64 && strings.TrimRight(p, "\x00") == strings.TrimRight(q, "\x00")
+}
+
+var edgePass = []string{"", "\x00", strings.Repeat("k", 64), strings.Repeat("L", 65), strings.Repeat("z", 63) + "\x00", "a\x00b"}
+
 func wrongPass(r *vh.RNG, cur string, others []string) string {
 	for {
 		var w string
@@ -1095,7 +1109,7 @@ func wrongPass(r *vh.RNG, cur string, others []string) string {
 		default:
 			w = " " + cur
 		}
-		if w != cur && strings.TrimRight(w, "\x00") != strings.TrimRight(cur, "\x00") {
+		if !kdfEquivalent(w, cur) {
 			return w
 		}
 	}
@@ -1111,6 +1125,9 @@ func genHistory(r *vh.RNG, n int) []string {
 	var toks []string
 	for i := 0; i < nacc; i++ {
 		p := base[(off+i)%4]
+		if r.Chance(30) {
+			p = edgePass[r.Intn(len(edgePass))]
+		}
 		cur = append(cur, p)
 		kind := "new"
 		if r.Bool() {
@@ -1137,6 +1154,12 @@ func genHistory(r *vh.RNG, n int) []string {
 		case 5:
 			fresh++
 			np := fmt.Sprintf("%s/new%d", cur[i], fresh)
+			switch r.Intn(4) {
+			case 0:
+				np = edgePass[r.Intn(len(edgePass))] // "", a single NUL, 64 / 65 bytes, ...
+			case 1:
+				np = cur[i] // equal to the old one
+			}
 			toks = append(toks, fmt.Sprintf("upd:%d:%s:%s", i, hx(pass), hx(np)))
 			if right {
 				cur[i] = np // (a deleted account keeps refusing; harmless for the generator)
@@ -1260,9 +1283,15 @@ func runHistory(dir string, toks []string, seed uint64) hresult {
 		case "exp":
 			hasPass, pass = true, unhx(f[2])
 			var js []byte
-			js, err = ks.Export(a.acc, pass, pass+"-exported")
+			ep := []string{pass + "-exported", "", "\x00", strings.Repeat("E", 64), pass}[(k+idx)%5]
+			js, err = ks.Export(a.acc, pass, ep)
 			if err == nil {
-				kk, derr := keystore.DecryptKey(js, pass+"-exported")
+				kk, derr := keystore.DecryptKey(js, ep)
+				if derr == nil && !kdfEquivalent(ep, pass+"#") {
+					if _, e2 := keystore.DecryptKey(js, ep+"#"); e2 == nil {
+						out = "ok-bad-export"
+					}
+				}
 				if derr != nil || kk.Address != a.acc.Address || (a.key != nil && !bytes.Equal(crypto.FromECDSA(kk.PrivateKey), a.key)) {
 					out = "ok-bad-export"
 				}
@@ -1358,7 +1387,7 @@ func runHistory(dir string, toks []string, seed uint64) hresult {
 			viol(k, "export-not-decryptable/"+f[0], "an exported key does not decrypt to the account's key with the new passphrase")
 		}
 		if hasPass {
-			right := a.exists && pass == a.pass
+			right := a.exists && kdfEquivalent(pass, a.pass)
 			if !right {
 				if out != "err" {
 					viol(k, "wrong-passphrase-accepted/"+f[0], "an operation given a passphrase other than the account's returned no error")
@@ -1383,7 +1412,7 @@ func runHistory(dir string, toks []string, seed uint64) hresult {
 					if _, e := keystore.VerifGetKey(a.acc.Address, a.acc.URL.Path, a.pass); e != nil {
 						viol(k, "update-lost-key/upd", "after Update the file does not open with the new passphrase")
 					}
-					if old != a.pass {
+					if !kdfEquivalent(old, a.pass) {
 						if _, e := keystore.VerifGetKey(a.acc.Address, a.acc.URL.Path, old); e == nil {
 							viol(k, "update-keeps-old-passphrase/upd", "after Update the file still opens with the old passphrase")
 						}
@@ -1431,6 +1460,10 @@ func (h *harness) histories() {
 	hists[0] = []string{"new:" + hx("alpha pass"), "imp:" + hx("пароль-Б"), "tun:0:" + hx("alpha pass") + ":0", "tun:0:" + hx("alpha pas") + ":0", "tun:0:" + hx("") + ":S",
 		"tun:0:" + hx("пароль-Б") + ":L", "sig:0", "tun:1:" + hx("alpha pass") + ":0", "sig:1", "upd:0:" + hx("wrong") + ":" + hx("n"), "exp:0:" + hx("alpha pass "), "del:0:" + hx("Alpha pass"),
 		"lock:0", "tun:0:" + hx("alpha pasS") + ":0", "sig:0", "tun:0:" + hx("alpha pass") + ":L", "tun:0:" + hx("x") + ":0", "sig:0"}
+	hists[1] = []string{"imp:" + hx("old pass"), "new:" + hx(""), "upd:0:" + hx("old pass") + ":" + hx(""), "tun:0:" + hx("old pass") + ":0", "tun:0:" + hx("") + ":0", "sig:0", "lock:0",
+		"upd:0:" + hx("") + ":" + hx("\x00"), "tun:0:" + hx("\x00") + ":0", "lock:0", "upd:0:" + hx("\x00") + ":" + hx(strings.Repeat("k", 64)), "tun:0:" + hx("") + ":0", "tun:0:" + hx(strings.Repeat("k", 64)) + ":0",
+		"upd:0:" + hx(strings.Repeat("k", 64)) + ":" + hx(strings.Repeat("k", 64)), "upd:0:" + hx(strings.Repeat("k", 64)) + ":" + hx(strings.Repeat("L", 65)), "exp:0:" + hx(strings.Repeat("L", 65)),
+		"upd:1:" + hx("") + ":" + hx("x"), "upd:1:" + hx("x") + ":" + hx(""), "swp:1:" + hx(""), "swp:1:" + hx("x"), "tun:1:" + hx("") + ":S", "sig:1"}
 	sem := make(chan struct{}, 8)
 	done := make(chan int, n)
 	for i := range hists {
